@@ -799,7 +799,7 @@ func main() {
 			"non-canonical bitmaps (bits at positions >= n, extra bytes) are not judged here: the statement does not exclude them; short bitmaps belong to C09",
 		},
 	}, func(c *mon.Ctx) {
-		c.Cases("state", c.N(48, 1500), func(k *mon.Case) {
+		c.Cases("state", c.N(128, 2500), func(k *mon.Case) {
 			r := k.R
 			nv := 1 + r.Intn(6)
 			g := &node.ParamChange{}
@@ -831,7 +831,7 @@ func main() {
 			probeSoundness(k, r, n)
 			probePool(k, r, n)
 		})
-		c.Cases("loop", c.N(32, 800), func(k *mon.Case) {
+		c.Cases("loop", c.N(96, 1600), func(k *mon.Case) {
 			r := k.R
 			g := changeKeepingLiveness(r, &node.Node{Cfg: node.Config{BatchSize: 6}, Universe: node.Universe(6)})
 			n, err := node.New(node.Config{Genesis: g, Universe: 6, BatchSize: 6, MaxBlockCache: 200})
